@@ -1595,6 +1595,19 @@ def _object_tangent(run, rng, j, mon, judge, begin):
     T = hyperbolic.timelike_to(Pf.copy())
     judge("timelike_to(image of the origin)",
           float(np.max(np.abs(klein_of(T @ o) - kp))), 1e-8)
+    # ... and it is an isometry whatever representative was given: distances
+    # between the images of two further points are the distances between the
+    # points (seeded change C12-r5-1: a single vector no longer normalised, so
+    # timelike_to(lambda v) stretches by lambda while still sending the origin to v)
+    ka = rh.rand_ball(rng, d, shape, rmax=0.8)
+    kb = rh.rand_ball(rng, d, shape, rmax=0.8)
+    ia = klein_of(T @ Point(rh.klein_to_proj(ka)))
+    ib = klein_of(T @ Point(rh.klein_to_proj(kb)))
+    if np.all(np.sum(ia * ia, axis=-1) < 1 - 1e-9) and np.all(np.sum(ib * ib, axis=-1) < 1 - 1e-9):
+        judge("timelike_to(preserves distances)",
+              float(np.max(np.abs(rh.dist_klein(ia, ib) - rh.dist_klein(ka, kb)))), 1e-6)
+    else:
+        judge("timelike_to(preserves distances)", float("inf"), 1e-6)
 
 
 def wl_docs(run, rng, idx):
